@@ -337,8 +337,14 @@ func (sh *SessionHandler) handleRPCRenew(s *rhp3.Stream, log *zap.Logger) (contr
 	var baseCollateral types.Currency
 	if renewal.WindowEnd > existing.Revision.WindowEnd {
 		extension := uint64(renewal.WindowEnd - existing.Revision.WindowEnd)
-		baseRevenue = baseRevenue.Add(pt.WriteStoreCost.Mul64(renewal.Filesize).Mul64(extension))
-		baseCollateral = pt.CollateralCost.Mul64(renewal.Filesize).Mul64(extension)
+		var ok bool
+		// note: Filesize and WindowEnd have not been validated yet
+		baseRevenue, baseCollateral, ok = rhp.RenewalBaseCosts(baseRevenue, pt.WriteStoreCost, pt.CollateralCost, renewal.Filesize, extension)
+		if !ok {
+			err := errors.New("failed to validate renewal: base cost overflows")
+			s.WriteResponseErr(err)
+			return contracts.Usage{}, err
+		}
 	}
 
 	riskedCollateral, lockedCollateral, err := validateContractRenewal(existing.Revision, renewal, hostUnlockKey, req.RenterKey, sh.wallet.Address(), baseRevenue, baseCollateral, pt)
